@@ -16,8 +16,13 @@ ASSUMPTIONS = [
     "BTreeMap, Instant, Waker are summarised by their std contracts (listed in coverage.summaries); the std BTreeMap "
     "implementation and the OS clock's monotonicity are trusted",
     "N simultaneous timers: 3 (quick) / 4 (thorough); all deadlines, generations and clock readings are 64-bit symbols",
-    "outside: the driver's timeout precision, Runtime::poll_with's I/O side, Interval::tick's coroutine (only its "
-    "arithmetic kernel is checked)",
+    "future layer (mirsym/c09_futures.py): Sleep::new/poll, TimerFuture drop, Timeout::poll with an abstract inner future "
+    "(poll returns Ready(v) or Pending, never touches the wheel) and the Interval::tick state machine polled to completion "
+    "(<= 2 polls, the wheel firing the timer in between or not); Pin/Rc/RefCell/with_current/Try plumbing summarised "
+    "(coverage.summaries); Interval: instants and periods below 2^62 ns, period > 0, u128 `%` abstracted to a fresh "
+    "remainder r < period with dividend = multiple + r (the exact 128-bit remainder makes alignment nonlinear: z3 unknown)",
+    "outside: the driver's timeout precision, Runtime::poll_with's I/O side, timeout()/sleep() argument overflow "
+    "(Instant + Duration panics in std), interval_at's period assertion",
 ]
 
 
@@ -37,18 +42,26 @@ class Plan:
         import c09_timers
         path, cmd = dump.dump_mir("compio-runtime", ["time"])
         self.checker_cmd = cmd + " ; python3-vt check C09 (mirsym/c09_timers.py over %s)" % os.path.basename(path)
+        import c09_futures
         self.T = c09_timers.Timers(path, 3 if tier == "quick" else 4)
-        Plan.summaries = c09_timers.SUMMARY_TEXT
+        self.Fu = c09_futures.Futures(path, 3 if tier == "quick" else 4)
+        self.Fi = c09_futures.Futures(path, 2 if tier == "quick" else 3)     # Interval::tick: two polls per path
+        Plan.summaries = c09_timers.SUMMARY_TEXT + c09_futures.SUMMARY_TEXT
         self.mod = c09_timers
 
     def checks(self, tier):
-        return [("timers." + n, getattr(self.T, "check_" + n)) for n in self.T.CHECKS]
+        cs = [("timers." + n, getattr(self.T, "check_" + n)) for n in self.T.CHECKS]
+        for n in self.Fu.FCHECKS:
+            obj = self.Fi if n == "interval_tick" else self.Fu
+            cs.append(("futures." + n, getattr(obj, "check_" + n)))
+        return cs
 
     def encoded(self):
-        return sorted(self.T.encoded)
+        return sorted(self.T.encoded | self.Fu.encoded | self.Fi.encoded)
 
     def bounds(self, tier):
-        return {"simultaneous_timers": self.T.N, "steps": "1 operation from an arbitrary valid state",
+        return {"simultaneous_timers": self.T.N, "simultaneous_timers_interval_check": self.Fi.N,
+                "steps": "1 operation from an arbitrary valid state (Interval::tick: <= 2 polls)",
                 "width": "64-bit deadlines / generations / clock"}
 
     # ---- native side
@@ -122,10 +135,17 @@ class Plan:
             ops.append("min")
         else:
             ops.append("wake")
-        scen = ";".join(ops)
-        rc, lines = self.native_run(scen)
-        viol = [l for l in lines if "violation" in l]
-        return (rc == 1 and bool(viol)), {"scenario": scen, "native_output": lines}
+        # the counterexample fixes an order of instants, not their distances (which a real clock cannot reproduce
+        # to the nanosecond): replay the same history at three real-time scales (20 ms, 500 us, 100 us between instants)
+        tried = []
+        for unit in (1000, 25, 5):
+            scen = ";".join((["unit:%d" % unit] if unit != 1000 else []) + ops)
+            rc, lines = self.native_run(scen)
+            viol = [l for l in lines if "violation" in l]
+            tried.append(scen)
+            if rc == 1 and viol:
+                return True, {"scenario": scen, "native_output": lines}
+        return False, {"scenario": tried[0], "scales_tried": tried, "native_output": lines}
 
 
 def run(tier):
